@@ -10,4 +10,6 @@ def main(build):
         if binary is None:
             print(msg)
             ok = False
+    import check_helpers
+    ok = check_helpers.warm(build) and ok
     return 0 if ok else 1
